@@ -23,6 +23,12 @@ pub fn monitor_c06() -> Monitor {
     run, replay }
 }
 
+/// (cell, reference centre, reference vertices) of every cell of levels 0..2
+fn coarse_cells(k: u8) -> &'static Vec<(u64, (f64, f64), [(f64, f64); 4])> {
+  static T: OnceLock<Vec<Vec<(u64, (f64, f64), [(f64, f64); 4])>>> = OnceLock::new();
+  &T.get_or_init(|| (0..3u8).map(|k| (0..n_hash(k)).map(|h| (h, ref_center(k, h), ref_vertices(k, h))).collect()).collect())[k as usize]
+}
+
 pub fn thresholds() -> &'static Vec<f64> { static T: OnceLock<Vec<f64>> = OnceLock::new(); T.get_or_init(bsd_thresholds) }
 
 pub fn gen_cone(rng: &mut Rng, allow_dd: bool) -> Case {
@@ -64,6 +70,18 @@ pub fn gen_cone(rng: &mut Rng, allow_dd: bool) -> Case {
       lat = lat.max(-PI / 2.0).min(PI / 2.0);
       if rng.coin() { lon = (rng.below(5) as f64) * PI / 2.0 + (rng.f() - 0.5) * 6.0 * r2 / lat.cos().max(1e-12); }
       return Case::new("cone").u("depth", depth as u64).u("dd", dd as u64).f("lon", any_turn(rng, lon)).f("lat", lat).f("r", r2.max(1e-10)).u("s", rng.next() >> 1);
+    }
+    // cones that graze the far side of the sphere: centre = a cell centre of level <= 2 (its antipode is a cell centre too), radius =
+    // pi - (true centre-to-vertex distance of the antipodal cell) +- tiny: the cone touches that cell at one vertex only
+    if rng.below(16) == 0 {
+      let k = rng.below(3) as u8; let h = rng.below(n_hash(k)); let c = nested::get_or_create(k).center(h);
+      let anti = ((c.0 + PI).rem_euclid(TWO_PI), -c.1);
+      let ha = ref_hash(k, anti.0, anti.1).unwrap_or(0);
+      let dv: Vec<f64> = ref_vertices(k, ha).iter().map(|v| dist(*v, ref_center(k, ha))).collect();
+      let dsel = dv[rng.below(4) as usize];
+      let delta = *rng.pick(&[-1e-9, 1e-12, 1e-9, 1e-8, 4e-8, 6e-8, 1e-7, 1e-6, 1e-4]);
+      let depth2 = (k + rng.below(4) as u8).min(29 - dd);
+      return Case::new("cone").u("depth", depth2 as u64).u("dd", dd as u64).f("lon", c.0).f("lat", c.1).f("r", (PI - dsel + delta).min(PI)).u("s", rng.next() >> 1);
     }
     match rng.below(12) {
       0 => { let d = rng.below(30) as u8; let cs = sample_cells(rng, d, 4); let h = *rng.pick(&cs); let c = nested::get_or_create(d).center(h); lon = c.0; lat = c.1; }
@@ -135,6 +153,27 @@ pub fn judge(ctx: &mut Ctx, c: &Case) {
     let h = match catch(|| layer.hash(p.0, p.1)) { Ok(h) => h, Err(_) => continue };
     wit_cells.push((h, p, d));
     if cover.get(depth, h).is_none() && missed.is_none() { missed = Some((p, h, d)); }
+  }
+  // directed witnesses for large cones: the coarse cells (levels 0..2) that the cone only grazes at a vertex. The witness is the vertex moved
+  // towards the cell centre by a quarter of its depth inside the cone: inside the cell and inside the cone.
+  if r > 0.05 && r < PI {
+    for k in 0..=depth.min(2) { for (hc, ctr, vs) in coarse_cells(k).iter() { for v in vs.iter() {
+      let dv = dist(*v, (lon, lat)); let slack = r * (1.0 - 1e-9) - dv;
+      if !(slack > 0.0 && slack < 1e-3) { continue; }
+      let dc = dist(*v, *ctr); let eta = (0.25 * slack).min(0.1 * dc);
+      let (vv, vc) = (v3(*v), v3(*ctr)); let cq = dot(vv, vc);
+      let mut t = [vc[0] - cq * vv[0], vc[1] - cq * vv[1], vc[2] - cq * vv[2]]; let nt = norm(t); if !(nt > 0.0) { continue; } t = [t[0] / nt, t[1] / nt, t[2] / nt];
+      let (se, ce) = f64::sin_cos(eta); let pv = [vv[0] * ce + t[0] * se, vv[1] * ce + t[1] * se, vv[2] * ce + t[2] * se];
+      let p = (pv[1].atan2(pv[0]).rem_euclid(TWO_PI), pv[2].atan2((pv[0] * pv[0] + pv[1] * pv[1]).sqrt()));
+      let d = dist(p, (lon, lat));
+      if !(d <= r * (1.0 - 1e-9)) { continue; }
+      // the witness must be in that coarse cell for the reference model too (not on its border)
+      if !contains(k, *hc, p.0, p.1, 0.0).0 { continue; }
+      n_wit += 1; ctx.hard("cone:grazes-a-coarse-cell-at-a-vertex", &[fp[0], fp[2], fp[3], fp[4], *hc, k as u64]);
+      let h = match catch(|| layer.hash(p.0, p.1)) { Ok(h) => h, Err(_) => continue };
+      wit_cells.push((h, p, d));
+      if cover.get(depth, h).is_none() && missed.is_none() { missed = Some((p, h, d)); }
+    } } }
   }
   ctx.evals_n(n_wit);
   if n_wit == 0 && r < PI { ctx.bump("cones-without-usable-witness"); }
